@@ -23,6 +23,12 @@ SHAPE_OPS = ["new", "from_cs", "from_gs", "from_cgs", "copy_from", "assign", "sw
              "add_dims_embed", "add_dims_project", "expand", "concatenate", "remove_dims", "remove_higher", "fold",
              "unconstrain", "unconstrain_set", "map_dims"]
 OBS = set(polylib.OBSERVERS)
+IMG_OPS = ["affine_image", "affine_preimage", "gen_affine_image", "gen_affine_preimage", "bounded_affine_image", "bounded_affine_preimage",
+           "gen_affine_image_lhs", "gen_affine_preimage_lhs"]
+DIM_OPS = ["add_dims_embed", "add_dims_project", "expand", "concatenate", "remove_dims", "remove_higher", "fold", "unconstrain", "unconstrain_set", "map_dims",
+           "poly_difference", "hull_if_exact", "conv_topo", "poly_hull", "intersection"]
+IMG_BASE = ["from_cs", "from_gs", "new", "min_constraints", "is_empty", "contains", "equals", "constraints", "refine_with_constraint",
+            "refine_with_constraints", "add_constraint", "copy_from", "assign", "swap"]
 
 
 def build_all(combos):
@@ -38,7 +44,7 @@ def build_all(combos):
 
 
 def owner(why):
-    return "C03" if why.startswith("C03:") else "C04"
+    return "C03" if why.startswith("C03:") else "C08" if why.startswith("C08:") else "C17" if why.startswith("C17:") else "C04"
 
 
 def run_shapes(run, prop, plans):
@@ -80,7 +86,8 @@ def run_shapes(run, prop, plans):
             if op in ("Crash", "Hang"):
                 nops = sum(1 for l in r["events"][:r["index"]] if l.startswith('{"e":"Op"'))
                 op = r["prog"][nops]["op"] if nops < len(r["prog"]) else "?"
-            if owner(why) != prop and not os.environ.get("VERIF_ALL"):
+            # a broken class invariant (OK() false) or a crash is reported by whichever check observes it
+            if owner(why) != prop and not why.endswith(":OK()") and r["op"] not in ("Crash", "Hang") and not os.environ.get("VERIF_ALL"):
                 continue
             ev = None
             try:
